@@ -576,3 +576,160 @@ Proof.
 Qed.
 Lemma cuts_okb_ok u : cuts_okb u = true -> cuts_ok u.
 Proof. intros H X y0 Y E Hne Hs. apply (cuts_okb_from_ok u [] H X y0 Y E Hne Hs). Qed.
+
+(* ================= F. wrapping without breaking a word keeps the effect ================= *)
+Lemma dropblank_blank cur2 : exists B, cur2 = dropblank cur2 ++ B /\ Forall (fun c => is_space c = true) (concat B).
+Proof.
+  unfold dropblank. destruct cur2 as [|x l _] using rev_ind; [exists []; split; [reflexivity|constructor]|].
+  rewrite rev_app_distr. cbn [rev app]. destruct (blank x) eqn:E.
+  - rewrite removelast_last. exists [x]. split; [reflexivity|]. cbn [concat]. rewrite app_nil_r.
+    unfold blank in E. apply Forall_forall. intros c Hc. rewrite forallb_forall in E. auto.
+  - exists []. split; [now rewrite app_nil_r|constructor].
+Qed.
+(* one line, when every chunk fits the width: a blank chunk dropped in front (not on the first line), chunks taken, a blank
+   chunk dropped behind *)
+Lemma wstep_nobreak width (c0 : str) (r0 lines : list str) : Forall (fun c : str => length c <= width) (c0 :: r0) ->
+  exists D taken rest : list str, c0 :: r0 = D ++ taken ++ rest /\ wstep width c0 r0 lines = (dropblank taken, rest) /\
+    Forall (fun c => is_space c = true) (concat D) /\ (D <> [] -> lines <> []) /\ (D = [] -> taken <> []).
+Proof.
+  intros Hfit.
+  set (cs1 := if blank c0 && (match lines with [] => false | _ => true end) then r0 else c0 :: r0).
+  assert (exists D, c0 :: r0 = D ++ cs1 /\ Forall (fun c => is_space c = true) (concat D) /\ (D <> [] -> lines <> []) /\
+                    (D = [] -> cs1 = c0 :: r0)) as (D & HD & HDb & HDl & HD0).
+  { subst cs1. destruct (blank c0) eqn:Eb; cbn [andb].
+    - destruct lines as [|l0 ls0]; [exists []; repeat split; auto; constructor|].
+      exists [c0]. repeat split; auto; try discriminate. cbn [concat]. rewrite app_nil_r.
+      unfold blank in Eb. apply Forall_forall. intros c Hc. rewrite forallb_forall in Eb. auto.
+    - exists []. repeat split; auto; constructor. }
+  destruct (fill_line_spec width cs1 [] 0) as (taken & rest & H1 & H2 & H3 & H4).
+  cbn [app Nat.add] in H1, H4. exists D, taken, rest. split; [now rewrite HD, H2|]. split.
+  - unfold wstep. cbv zeta.
+    match goal with |- context [fill_line width ?n 0 ?c] => change (fill_line width n 0 c) with (fill_line width [] 0 cs1) end.
+    rewrite H1. destruct rest as [|c r]; [reflexivity|].
+    assert (length c <= width) as Hc.
+    { rewrite Forall_forall in Hfit. apply Hfit. rewrite HD, H2. apply in_or_app. right. apply in_or_app. right. now left. }
+    apply Nat.ltb_ge in Hc. now rewrite Hc.
+  - split; [exact HDb|]. split; [exact HDl|]. intros HDe Ht. subst taken. cbn [app concat length] in *.
+    rewrite (HD0 HDe) in H2. subst rest. inversion Hfit; subst. lia.
+Qed.
+
+Lemma join_lines_snoc p : forall ls l, ls <> [] -> join_lines p (ls ++ [l]) = join_lines p ls ++ 10%N :: p ++ l.
+Proof.
+  induction ls as [|x r IH]; intros l Hne; [congruence|]. destruct r as [|y r'].
+  - reflexivity.
+  - change ((x :: y :: r') ++ [l]) with (x :: (y :: r') ++ [l]).
+    change (join_lines p (x :: (y :: r') ++ [l])) with (x ++ 10%N :: p ++ join_lines p ((y :: r') ++ [l])).
+    rewrite IH by discriminate. change (join_lines p (x :: y :: r')) with (x ++ 10%N :: p ++ join_lines p (y :: r')).
+    symmetry. rewrite <- app_assoc. cbn [app]. now rewrite <- app_assoc.
+Qed.
+
+Section WrapLoop.
+  Variables (width : nat) (CS : list str).
+  Hypothesis Hfit : Forall (fun c : str => length c <= width) CS.
+  Hypothesis Hne : Forall ne CS.
+  Hypothesis Hbnd : all_bnd CS.
+  Hypothesis Hcuts : cuts_ok (concat CS).
+
+  (* the chunks A are consumed, the lines written: the text consumed is O followed by blanks T, and scanning O and scanning the
+     lines joined by line breaks leave equivalent states *)
+  Definition loop_inv (A : list str) (lines : list str) : Prop :=
+    exists O T, concat A = O ++ T /\ Forall inert T /\ (lines <> [] -> O <> []) /\
+      sim (fold_left lex_step O lex_init) (fold_left lex_step (join_lines [] lines) lex_init).
+
+  Lemma loop_step (A : list str) (c0 : str) (r0 lines : list str) : CS = A ++ c0 :: r0 -> loop_inv A lines ->
+    exists A', CS = A' ++ snd (wstep width c0 r0 lines) /\
+      loop_inv A' (match fst (wstep width c0 r0 lines) with [] => lines | _ => lines ++ [concat (fst (wstep width c0 r0 lines))] end).
+  Proof.
+    intros HCS (O & T & HO & HT & HOne & Hsim).
+    assert (Forall (fun c : str => length c <= width) (c0 :: r0)) as Hfit'.
+    { rewrite HCS in Hfit. apply Forall_app in Hfit. tauto. }
+    destruct (wstep_nobreak width c0 r0 lines Hfit') as (D & taken & rest & Hsplit & -> & HDb & HDl & HD0).
+    cbn [fst snd]. destruct (dropblank_blank taken) as (B & HB & HBb). set (line := dropblank taken) in *.
+    exists (A ++ D ++ taken). split; [rewrite HCS, Hsplit; now rewrite <- !app_assoc|].
+    assert (Forall ne taken) as Hnet.
+    { rewrite HCS, Hsplit in Hne. apply Forall_app in Hne as [_ Hne']. apply Forall_app in Hne' as [_ Hne'].
+      apply Forall_app in Hne'. tauto. }
+    assert (concat (A ++ D ++ taken) = O ++ (T ++ concat D) ++ concat line ++ concat B) as Econs.
+    { rewrite !concat_app, HO, HB, concat_app. now rewrite <- !app_assoc. }
+    pose proof (inert_blank _ HDb) as HDi. pose proof (inert_blank _ HBb) as HBi.
+    destruct line as [|l0 line'] eqn:Eline.
+    - (* nothing but blanks: no line *)
+      exists O, ((T ++ concat D) ++ concat B). split; [rewrite Econs; cbn [concat app]; now rewrite <- !app_assoc|].
+      split; [repeat (apply Forall_app; split); assumption|]. split; assumption.
+    - set (L := concat (l0 :: line')).
+      assert (L <> []) as HL.
+      { subst L. rewrite HB in Hnet. apply Forall_app in Hnet as [Hnet _]. inversion Hnet as [|? ? Hl0 _]; subst.
+        cbn [concat]. destruct l0; [now elim Hl0|discriminate]. }
+      exists (O ++ (T ++ concat D) ++ L), (concat B). split; [rewrite Econs; now rewrite <- !app_assoc|].
+      split; [exact HBi|]. split; [intros _; destruct O; [destruct (T ++ concat D); [cbn; exact HL|discriminate]|discriminate]|].
+      set (R := T ++ concat D) in *.
+      assert (Forall inert R) as HR by (apply Forall_app; split; assumption).
+      destruct lines as [|x0 lines0].
+      + (* the first line *)
+        cbn [app join_lines]. rewrite !fold_left_app. apply sim_fold.
+        destruct R as [|r1 R']; [exact Hsim|].
+        set (stO := fold_left lex_step O lex_init) in *.
+        destruct (inert_fold stO (r1 :: R') HR ltac:(discriminate)) as (x & -> & Ex & Xne).
+        destruct Hsim as (S1 & S2 & S3). cbn [join_lines fold_left lex_init l_done l_cur l_cand] in S1, S2, S3.
+        assert (l_done stO = []) as E0 by (inversion S1; reflexivity).
+        split; [cbn [mk l_done lex_init]; rewrite E0; constructor|].
+        split; [|reflexivity]. cbn [mk l_cur lex_init]. rewrite !app_assoc. now rewrite ends_false_app.
+      + rewrite join_lines_snoc by discriminate. cbn [app]. rewrite !fold_left_app.
+        destruct R as [|r1 R'] eqn:ER.
+        * (* no blank between the lines: a line break is put in at a chunk boundary *)
+          cbn [fold_left]. destruct L as [|y0 L'] eqn:EL; [congruence|]. cbn [fold_left]. apply sim_fold.
+          apply (sim_cut _ _ y0 [10%N]); [exact Hsim|apply lex_fold_tagish, lex_init_tagish| |constructor; [exact inert_nl|constructor]].
+          assert (T = [] /\ concat D = []) as [ET ED] by (subst R; destruct T; [split; [reflexivity|exact ER]|discriminate]).
+          assert (D = []) as ->.
+          { destruct D as [|d D']; [reflexivity|]. exfalso. rewrite HCS, Hsplit in Hne. apply Forall_app in Hne as [_ Hne'].
+            inversion Hne' as [|? ? Hd _]; subst. cbn [concat] in ED. destruct d; [now elim Hd|discriminate]. }
+          cbn [app] in Hsplit. rewrite ET, app_nil_r in HO.
+          assert (A <> []) as HA.
+          { intros ->. cbn in HO. specialize (HOne ltac:(discriminate)). congruence. }
+          assert (exists b0 rest0, taken ++ rest = b0 :: rest0 /\ hd 0%N b0 = y0) as (b0 & rest0 & Eb0 & Ey0).
+          { rewrite HB. cbn [app]. exists l0, (line' ++ B ++ rest). split; [now rewrite <- app_assoc|].
+            assert (ne l0) as Hl0 by (rewrite HB in Hnet; cbn [app] in Hnet; now inversion Hnet).
+            subst L. cbn [concat] in EL. destruct l0 as [|z l0']; [now elim Hl0|]. cbn [app] in EL. now injection EL as -> _. }
+          rewrite <- HO. apply (Hcuts (concat A) y0 (L' ++ concat B ++ concat rest)).
+          -- rewrite HCS, Hsplit, HB, !concat_app. fold L. rewrite EL. cbn [app]. now rewrite <- !app_assoc.
+          -- rewrite HO. apply HOne. discriminate.
+          -- rewrite HCS, Hsplit, Eb0 in Hbnd, Hne. destruct (all_bnd_split A b0 rest0 Hbnd Hne HA) as [H|H].
+             ++ now rewrite H.
+             ++ rewrite Ey0 in H. now rewrite H, orb_true_r.
+        * (* blanks between the lines: replaced by the line break *)
+          rewrite <- ER in *. cbn [fold_left]. apply sim_fold.
+          change (lex_step (fold_left lex_step (join_lines [] (x0 :: lines0)) lex_init) 10%N)
+            with (fold_left lex_step [10%N] (fold_left lex_step (join_lines [] (x0 :: lines0)) lex_init)).
+          apply sim_blanks; [exact Hsim|exact HR|rewrite ER; discriminate|constructor; [exact inert_nl|constructor]|discriminate].
+  Qed.
+
+  Lemma loop_all : forall f A cs lines ls, CS = A ++ cs -> loop_inv A lines ->
+    wrap_chunks f width cs lines = Some ls -> loop_inv CS ls.
+  Proof.
+    induction f as [|f IH]; intros A cs lines ls HCS Hinv H; [discriminate|].
+    destruct cs as [|c0 r0]; [cbn in H; injection H as <-; now rewrite HCS, app_nil_r|].
+    rewrite wrap_chunks_S in H. destruct (loop_step A c0 r0 lines HCS Hinv) as (A' & HCS' & Hinv').
+    eapply IH; eauto.
+  Qed.
+End WrapLoop.
+
+(* every chunk of the text fits the width: no word has to be broken *)
+Definition words_fit (w : Z) (t : str) : Prop := Forall (fun c => (Z.of_nat (length c) <= w)%Z) (chunks (munge t)).
+
+Theorem wrap_effect sty t w ls sk : wrap t w = Ok ls -> words_fit w t -> cuts_ok (munge t) ->
+  effects sty ls sk = effect sty false (munge t) sk.
+Proof.
+  unfold wrap. destruct (w <=? 0)%Z eqn:Ew; [discriminate|]. apply Z.leb_gt in Ew.
+  destruct (wrap_chunks _ _ (chunks (munge t)) []) as [l|] eqn:E; [|discriminate]. intros H Hfit Hcuts. injection H as ->.
+  assert (loop_inv (chunks (munge t)) ls) as (O & T & HO & HT & _ & Hsim).
+  { apply (loop_all (Z.to_nat w) (chunks (munge t))) with (f := 2 * length t + 2) (A := []) (cs := chunks (munge t)) (lines := []).
+    - eapply Forall_impl; [|exact Hfit]. intros c Hc. cbv beta in Hc. lia.
+    - apply chunks_ne.
+    - apply chunks_bnd.
+    - now rewrite chunks_concat.
+    - reflexivity.
+    - exists [], []. split; [reflexivity|]. split; [constructor|]. split; [congruence|apply sim_refl].
+    - exact E. }
+  rewrite chunks_concat in HO. rewrite HO, effect_inert_suffix by exact HT.
+  rewrite (sim_effect sty _ _ sk Hsim). symmetry. apply effect_join. constructor.
+Qed.
